@@ -33,7 +33,7 @@ def _run(variant, y, valid, nd, prm):
     return smooth.run_variant(variant, yy, nd, prm)
 
 
-def _adjudicate(what, variant, y, valid, prm, lam, out_a, out_b, rec=None, shift=0, ctx_twin=None, alt=None):
+def _adjudicate(what, variant, y, valid, prm, lam, out_a, out_b, rec=None, shift=0, ctx_twin=None, alt=None, alt_plain=None):
     """out_a / out_b should be equal; accept unit differences at rounding ties of the reference curve."""
     d = np.asarray(out_a).astype(np.int64) - np.asarray(out_b).astype(np.int64)
     if not d.any():
@@ -60,6 +60,14 @@ def _adjudicate(what, variant, y, valid, prm, lam, out_a, out_b, rec=None, shift
             z_alt = alt()
             if z_alt is not None and z_alt.shape == zs[0].shape:
                 path_dep = float(np.max(np.abs(z_alt - zs[0])))
+        except Exception:  # noqa: BLE001 - adjudication aid only
+            path_dep = 0.0
+    if alt_plain is not None and variant in smooth.ROBUST and variant in smooth.NEEDS_P:
+        # robust + asymmetric: the same capped iteration from the zero curve runs underneath the robust weights; where the PLAIN
+        # asymmetric curve of the related input already ends elsewhere, the robust one does too
+        try:
+            za_, zb_ = alt_plain()
+            path_dep = float(np.max(np.abs(za_ - zb_)))
         except Exception:  # noqa: BLE001 - adjudication aid only
             path_dep = 0.0
     if 2 * path_dep >= 0.25:
@@ -178,7 +186,8 @@ def sub_offset(case, rec=None):
     yb[~valid] = nd + c
     return _adjudicate("%s offset c=%d: f(y)+c vs f(y+c)" % (variant, c), variant, y, valid, prm, lam,
                        np.asarray(o1).astype(np.int64) + c, o2, rec, shift=c, ctx_twin=(ya, nd, yb, nd + c),
-                       alt=(lambda: smooth.reference_curve(variant, y + c, valid, lam, prm)[0] - c) if variant not in smooth.ROBUST else None)
+                       alt=(lambda: smooth.reference_curve(variant, y + c, valid, lam, prm)[0] - c) if variant not in smooth.ROBUST else None,
+                       alt_plain=(lambda: (smooth.reference_curve("wcvp", y, valid, lam, prm)[0], smooth.reference_curve("wcvp", y + c, valid, lam, prm)[0] - c)))
 
 
 def sub_reverse(case, rec=None):
@@ -194,7 +203,9 @@ def sub_reverse(case, rec=None):
         return why
     lam = prm["lam"] if l1 is None else l1
     return _adjudicate("%s reversal: f(y) vs reversed f(reversed y)" % variant, variant, y, valid, prm, lam, o1, np.asarray(o2)[::-1], rec,
-                       alt=lambda: smooth.reference_curve(variant, y[::-1].copy(), valid[::-1].copy(), lam, prm)[0][::-1])
+                       alt=lambda: smooth.reference_curve(variant, y[::-1].copy(), valid[::-1].copy(), lam, prm)[0][::-1],
+                       alt_plain=(lambda: (smooth.reference_curve("wcvp", y, valid, lam, prm)[0],
+                                           smooth.reference_curve("wcvp", y[::-1].copy(), valid[::-1].copy(), lam, prm)[0][::-1])))
 
 
 def sub_offset_tyx(case, rec=None):
